@@ -43,10 +43,7 @@ Definition status_of (r : M (list cmd * list Z)) (c : case) : nat :=
 Definition status (c : case) : nat := status_of (run c) c.
 
 Definition tag_eqb (a b : tag) : bool := String.eqb (tag_name a) (tag_name b).
-Definition all_tags : list tag :=
-  [T_neg_after_tight; T_parse_pop_lower; T_iop_leading_minus; T_iop_inject; T_inject_reused_temp; T_sub_rewrite_fold;
-   T_fold_pow_negbase; T_pow_nonconst; T_opt_final_minus; T_opt_final_div; T_opt_final_mod;
-   T_opt_mid_merge; T_opt_swap_self; T_opt_merge_self; T_const_range; T_crash_fold; T_fold_float; T_fold_nowrap; T_fold_huge].
+Definition all_tags : list tag := [T_pow_nonconst; T_const_range].
 
 Fixpoint index_of (s : string) (l : list string) (i : nat) : option nat :=
   match l with
